@@ -199,8 +199,8 @@ func init() {
 	register(&core.Property{
 		ID:       "C16",
 		Title:    "Transaction hash and signature bind every signed field",
-		Packages: []string{"types", "common/crypto"},
-		Explanation: "Decides R16a-R16d: the hand-written clones copy every protobuf field of Transaction and Signature; Hash clears exactly {Signature,Header} and checkSign exactly {Signature} on a clone before encoding, Sign clears Signature on the receiver, FullHash clears nothing; " +
+		Packages: []string{"types", "common/crypto", "system/crypto/secp256r1", "system/crypto/secp256k1eth"},
+		Explanation: "Decides R16a-R16e (R16e: the configured enable heights are applied whatever the enableTypes list is; secp256r1 accepts only low-S signatures; secp256k1eth binds all 65 signature bytes by requiring the recovered key to equal the claimed key): the hand-written clones copy every protobuf field of Transaction and Signature; Hash clears exactly {Signature,Header} and checkSign exactly {Signature} on a clone before encoding, Sign clears Signature on the receiver, FullHash clears nothing; " +
 			"signature verification loads the crypto driver at the caller's height, crypto.Load always adds the enable-height option whose closure rejects disabled drivers; a missing signature is rejected before use; " +
 			"block-level verification is the conjunction over every transaction handed to it.",
 		NotCovered: "that each crypto driver's Validate rejects altered data, and the encoder's injectivity (V clauses).",
@@ -274,6 +274,49 @@ func init() {
 				// the enable height itself is enabled (boundary)
 				core.HasAtom{Fn: cl, Name: "blockHeight >= enableHeight (inclusive)", L: bh, R: dHeight, Rel: token.GEQ}.Check(r)
 				core.HasAtom{Fn: cl, Name: "enableHeight >= 0", L: dHeight, R: core.IsConstInt(0), Rel: token.GEQ}.Check(r)
+			}),
+			rule("R16e", "configuration and drivers: structural conditions of acceptance", 8, func(r *Run) {
+				// crypto.Init applies the configured enable heights whatever the enableTypes list is
+				f := r.Fn("common/crypto.Init")
+				if f != nil {
+					fl := core.RunFlow(f, &core.FlowSpec{Assume: func(c *core.Ctx, e ast.Expr) core.Tri {
+						if op, ok := core.CmpAtom(c, e, lenOf(core.Mentions("common/crypto.Config.EnableTypes")), core.IsConstInt(0)); ok && op == token.GTR {
+							return core.False
+						}
+						return core.Unknown
+					}})
+					live := false
+					for _, n := range fl.G.Nodes {
+						if n.Ast != nil && fl.Live(n) {
+							if e, ok := n.Ast.(ast.Expr); ok && core.Mentions("common/crypto.Config.EnableHeight")(fl.C, e) {
+								live = true
+							}
+						}
+					}
+					label := "common/crypto.Init applies [crypto.enableHeight] also when enableTypes is empty"
+					if live {
+						r.OK(label, r.W.Pos(f.Node().Pos()), "the enable-height loop does not depend on the enableTypes list")
+					} else {
+						r.Fail(label, r.W.Pos(f.Node().Pos()), "the enable-height overrides are only applied when enableTypes is non-empty: with the default (all drivers enabled) configured heights are ignored and a driver verifies from height 0")
+					}
+					// a height is only recorded for a driver that is enabled
+					core.Dominated{Fn: "common/crypto.Init", Spec: &core.FlowSpec{Conds: []core.CondGuard{core.BoolGuard("driver-enabled", core.IsObj("common/crypto.Driver.enable"), true)}},
+						Sink: core.StoreSink(r.W, "common/crypto.Driver.enableHeight"), Need: []Fact{"driver-enabled"}, Min: 1}.Check(r)
+				}
+				// secp256r1: only low-S signatures verify (malleability)
+				r1 := "system/crypto/secp256r1.PubKeyECDSA.VerifyBytes"
+				core.FailStops{Fn: r1, Callee: []string{"system/crypto/secp256r1.IsLowS"}, Fail: core.OFalse, Idx: -1, Forbidden: notFalseReturn(), Min: 1, Name: "high-S signature"}.Check(r)
+				core.FailStops{Fn: r1, Callee: []string{"system/crypto/secp256r1.UnmarshalECDSASignature"}, Fail: core.OErrNonNil, Idx: -1, Forbidden: notFalseReturn(), Min: 1, Name: "undecodable signature"}.Check(r)
+				core.CallArgs{Fn: r1, Callee: []string{"crypto/ecdsa.Verify"}, What: "verifies the decoded (r,s) as they are over the message hash with this key",
+					Args: map[int]core.ExprPred{0: core.FromCall(0, "system/crypto/secp256r1.parsePubKeyCompressed"), 1: core.CallsAny("common/crypto.Sha256"), 2: core.FromCall(0, "system/crypto/secp256r1.UnmarshalECDSASignature"), 3: core.FromCall(1, "system/crypto/secp256r1.UnmarshalECDSASignature")}, Min: 1}.Check(r)
+				// secp256k1eth: all 65 signature bytes are bound: the recovered key must equal the claimed key
+				ke := "system/crypto/secp256k1eth.PubKeySecp256k1Eth.VerifyBytes"
+				rec := core.FromCall(0, "github.com/ethereum/go-ethereum/crypto.Ecrecover")
+				core.Dominated{Fn: ke, Spec: &core.FlowSpec{Calls: []core.CallGuard{errNil("recovered", "github.com/ethereum/go-ethereum/crypto.Ecrecover")},
+					Conds: []core.CondGuard{core.BoolGuard("recovered-key-is-claimed-key", core.CallAtomSym("bytes.Equal", rec, core.Mentions("recv")), true)}},
+					Sink: notFalseReturn(), Need: []Fact{"recovered", "recovered-key-is-claimed-key"}, Min: 1}.Check(r)
+				core.CallArgs{Fn: ke, Callee: []string{"github.com/ethereum/go-ethereum/crypto.Ecrecover"}, What: "recovery over the full signature bytes",
+					Args: map[int]core.ExprPred{1: core.FromCall(0, "common/crypto.Signature.Bytes")}, Min: 1}.Check(r)
 			}),
 			rule("R16d", "block-level verification is the conjunction over all given transactions", 6, func(r *Run) {
 				core.FailStops{Fn: "types.VerifySignature", Callee: []string{"types.(*Block).verifySignature"}, Fail: core.OFalse, Idx: -1, Forbidden: core.CallSink("types.verifyTxsSignature"), Min: 1, Name: "block signature invalid"}.Check(r)
